@@ -182,7 +182,15 @@ def coerce_expression(value: Any) -> NixExpression:
             raise ValueError("Unsupported expression type: float must be finite")
         from nix_manipulator.expressions.float import FloatExpression
 
-        return FloatExpression(value=repr(value))
+        text = repr(value)
+        if "e" in text:
+            # Nix float literals need a fractional part before the exponent
+            # (`1e-07` would be read as `1` applied to `e-07`).
+            mantissa, exponent = text.split("e", 1)
+            if "." not in mantissa:
+                mantissa += ".0"
+            text = f"{mantissa}e{exponent}"
+        return FloatExpression(value=text)
     if isinstance(value, list):
         from nix_manipulator.expressions.list import NixList
 
